@@ -171,7 +171,11 @@ def finish(rep: Report) -> int:
         if b.error:
             rep.errors.append(f"bounded stand-in {b.name}: {b.error}")
 
-    for k in dict.fromkeys(rep.known_seen):
+    printed = {}
+    for k in rep.known_seen:                     # one line per finding id (the first, most detailed, description wins)
+        printed.setdefault(k.split(" ")[0], k)
+    rep.known_seen = list(printed.values())
+    for k in rep.known_seen:
         print(f"KNOWN-FINDING: property={rep.pid} {k}")
 
     deductive = [o for o in obs]
